@@ -18,9 +18,12 @@ criterion, iteration limit.
   T_C13_noraise    no `ValueError` leaves `optimize` (rolled back, never half-applied)
   T_C13_fuel       the `while` loop needs at most `max_iterations` rounds
   T_C13_order      the sorted clamp order is a permutation of the probed clamps
+  T_C13_setup_*    add_clamp / add_link: refused calls leave nothing behind, accepted ones hit the junction meant
+  T_C13_on_line, T_C13_links_translation   C17's LineClamp / TranslationLink as instances
   T_C13_backport_mesh / _sketch   mesh vertices / sketch positions after the back-port = final grid points
 -/
 import CBV.Lemmas.C13
+import CBV.Props.C17
 import Mathlib.Data.List.Perm.Basic
 import Mathlib.Order.Basic
 import Mathlib.Algebra.Order.Ring.Int
@@ -299,6 +302,94 @@ theorem T_C13_backport_sketch (quads : List (List Nat)) (pts : List P) (faces : 
         rw [hb1, ← hb2, hval k hk]
       · have h1 : r.length ≤ k := by rw [rl, List.length_range]; omega
         rw [List.getElem?_eq_none h1, List.getElem?_eq_none (by omega)]
+
+/-! ### set-up (round 5): `GridBase.add_clamp` / `add_link` -/
+
+/-- **Refused calls leave nothing behind.** An `add_clamp` / `add_link` that raises (`NoJunctionError`,
+    `ClampExistsError`, `InvalidLinkError`) leaves the registration of the grid exactly as it was. -/
+theorem T_C13_setup_refused (tol2 : Rat) (pts : List V3) (r : Reg) (k : Nat) (a b : V3) :
+    ((addClamp tol2 pts r k a).2 ≠ none → (addClamp tol2 pts r k a).1 = r) ∧
+      ((addLink tol2 pts r k a b).2 ≠ none → (addLink tol2 pts r k a b).1 = r) :=
+  ⟨(addClamp_spec tol2 pts r k a).1, (addLink_spec tol2 pts r k a b).1⟩
+
+/-- **An accepted clamp** sits on the first junction closer than TOL to the clamp's position, that junction had
+    no clamp, and nothing else changes. -/
+theorem T_C13_setup_clamp (tol2 : Rat) (pts : List V3) (r : Reg) (cid : Nat) (pos : V3)
+    (h : (addClamp tol2 pts r cid pos).2 = none) :
+    ∃ i q, pts[i]? = some q ∧ near tol2 q pos = true ∧
+      (∀ m q', m < i → pts[m]? = some q' → near tol2 q' pos = false) ∧ (∀ c ∈ r.clamps, c.1 ≠ i) ∧
+      (addClamp tol2 pts r cid pos).1 = { r with clamps := r.clamps ++ [(i, cid)] } := by
+  obtain ⟨i, q, _, h1, h2, h3, h4, h5⟩ := (addClamp_spec tol2 pts r cid pos).2 h
+  exact ⟨i, q, h1, h2, h3, h4, h5⟩
+
+/-- **The clamped vertex is the one found.** When the points of the grid are pairwise at least 2·TOL apart
+    (any real mesh: coincident points have been merged), the junction an `add_clamp` finds for a position within
+    TOL of point `k` is `k` — whatever the index order, whatever lies a little further away. -/
+theorem T_C13_setup_unique (tol2 : Rat) (pts : List V3) (hs : Separated tol2 pts) (pos : V3) (k : Nat) (a : V3)
+    (hk : pts[k]? = some a) (hn : near tol2 a pos = true) : findFirst tol2 pts pos = some k :=
+  findFirst_unique tol2 pts hs pos k a hk hn
+
+/-- **An accepted link** connects two different junctions of the grid, the leader's within TOL of the link's
+    leader, the follower's within TOL of its follower, and is appended to the registered links. -/
+theorem T_C13_setup_link (tol2 : Rat) (pts : List V3) (r : Reg) (lid : Nat) (leader follower : V3)
+    (h : (addLink tol2 pts r lid leader follower).2 = none) :
+    ∃ li fi a b, li ≠ fi ∧ pts[li]? = some a ∧ pts[fi]? = some b ∧ near tol2 leader a = true ∧
+      near tol2 follower b = true ∧
+      (addLink tol2 pts r lid leader follower).1 = { r with links := r.links ++ [⟨li, fi, lid⟩] } :=
+  (addLink_spec tol2 pts r lid leader follower).2 h
+
+/-- **The configuration read off the registration** (`GridBase.clamps` walks the junctions in order) has no
+    junction twice and only junctions of the grid: the first two clauses of `WF`. -/
+theorem T_C13_setup_cfg (r : Reg) (n : Nat) :
+    (clampIdxOf r n).Nodup ∧ ∀ i ∈ clampIdxOf r n, i < n ∧ ∃ c ∈ r.clamps, c.1 = i := by
+  refine ⟨List.Nodup.filter _ List.nodup_range, fun i hi => ?_⟩
+  simp only [clampIdxOf, List.mem_filter, List.mem_range, List.any_eq_true] at hi
+  obtain ⟨h1, c, hc, hci⟩ := hi
+  exact ⟨h1, c, hc, by simpa using hci⟩
+
+example : addClamp (1 / 100) [⟨0, 0, 0⟩, ⟨1, 0, 0⟩] ⟨[], []⟩ 7 ⟨1, 1 / 100, 0⟩ = (⟨[(1, 7)], []⟩, none) ∧
+    addClamp (1 / 100) [⟨0, 0, 0⟩, ⟨1, 0, 0⟩] ⟨[(1, 7)], []⟩ 8 ⟨1, 0, 0⟩ = (⟨[(1, 7)], []⟩, some .clampExists) ∧
+    addLink (1 / 100) [⟨0, 0, 0⟩, ⟨1, 0, 0⟩] ⟨[], []⟩ 3 ⟨1, 0, 0⟩ ⟨0, 0, 0⟩ = (⟨[], [⟨1, 0, 3⟩]⟩, none) ∧
+    addLink (1 / 100) [⟨0, 0, 0⟩, ⟨1, 0, 0⟩] ⟨[], []⟩ 3 ⟨1, 0, 0⟩ ⟨5, 0, 0⟩ = (⟨[], []⟩, some .followerNotFound) := by
+  decide +kernel
+
+/-- hypothesis of `T_C13_setup_unique` -/
+example : Separated (1 / 100) [⟨0, 0, 0⟩, ⟨1, 0, 0⟩] := by
+  intro i j a b hi hj hij
+  match i, j with
+  | 0, 0 => exact absurd rfl hij
+  | 1, 1 => exact absurd rfl hij
+  | 0, 1 => simp at hi hj; subst hi hj; norm_num [V3.norm2, V3.dot]
+  | 1, 0 => simp at hi hj; subst hi hj; norm_num [V3.norm2, V3.dot]
+  | _ + 2, _ => simp at hi
+  | 0, _ + 2 => simp at hj
+  | 1, _ + 2 => simp at hj
+
+/-! ### the library's clamps and links as instances (C17's model) -/
+
+/-- **On the line.** If clamp `j` is a `LineClamp` (C17's `lineClamp p1 p2 s`, `s` the length of `p2 − p1`), the
+    clamped point of a consistent state is collinear with `p1, p2` and its parameter is its signed distance
+    from `p1` — `T_C13_on_manifold` with `T_C17_line_on` supplying the hypothesis. -/
+theorem T_C13_on_line {cfg : Cfg V3 Rat} {n : Nat} {st : St V3 Rat} (hr : Rest cfg n st) {j idx : Nat}
+    (hj : cfg.clampIdx[j]? = some idx) (p1 p2 : V3) (s : Rat) (hs : s ≠ 0)
+    (hw : s * s = V3.dot (p2 - p1) (p2 - p1)) (hpos : cfg.pos j = C17.lineClamp p1 p2 s) :
+    ∃ x t, st.pts[idx]? = some x ∧ st.prm[j]? = some t ∧ V3.cross (x - p1) (p2 - p1) = V3.zero ∧
+      V3.dot (x - p1) (p2 - p1) = t * s := by
+  obtain ⟨t, ht⟩ := hr.prm_some hj
+  have h := (hr.2.2 j idx t hj ht).1
+  rw [hpos] at h
+  obtain ⟨h1, h2, _⟩ := C17.T_C17_line_on p1 p2 s t hs hw
+  exact ⟨_, t, h, ht, h1, h2⟩
+
+/-- **Translation kept.** If link `l` is a `TranslationLink` (C17's `translationLink l0 f0`), follower − leader
+    of a consistent state is the vector the link was built with. -/
+theorem T_C13_links_translation {cfg : Cfg V3 Rat} {n : Nat} {st : St V3 Rat} (hr : Rest cfg n st) {j idx : Nat}
+    (hj : cfg.clampIdx[j]? = some idx) (l : Link) (hl : l ∈ cfg.links) (hlead : l.leader = idx) (l0 f0 : V3)
+    (hfn : cfg.linkFn l.lid = C17.translationLink l0 f0) :
+    ∃ x y, st.pts[idx]? = some x ∧ st.pts[l.follower]? = some y ∧ y - x = f0 - l0 := by
+  obtain ⟨x, hx, hy⟩ := T_C13_links hr hj l hl hlead
+  rw [hfn] at hy
+  exact ⟨x, _, hx, hy, C17.T_C17_translation l0 f0 x⟩
 
 /-! ### non-vacuity: a concrete instance satisfying every hypothesis used above, on which the
 optimiser really moves something, rolls back and skips.
